@@ -6,7 +6,7 @@ EXTENDS PluginEvents, TraceLib
 VARIABLE rej
 tv == <<row, rej, l>>
 TInit == /\ CursorInit /\ rej = <<>>
-         /\ row = [phase |-> "clientPlay", kind |-> "unregistered", action |-> "none", shape |-> "empty"]
+         /\ row = [phase |-> "clientPlay", kind |-> "unregistered", action |-> "none", shape |-> "empty", overlap |-> FALSE]
 TRow == /\ IsEv("row")
         /\ rej' = IF Allowed(Rec) THEN rej ELSE Append(rej, l)
         /\ UNCHANGED row
